@@ -268,14 +268,29 @@ def dev_tags(res):
     return out
 
 
-def judge_records(ctx, h, inputs, label, st, offset=0, recs=None):
+def judge_chunks(ctx, recs, label):
+    """TLC judges the records in files of at most ~16 MB (a TraceLog too large to be pre-evaluated at start-up is
+    re-read for every state); returns (bad indices, {index: deviation name})"""
+    bad, tags, start, size, n = [], {}, 0, 0, 0
+    sizes = [len(json.dumps(r)) for r in recs]
+    for i in range(len(recs) + 1):
+        if i == len(recs) or (size + sizes[i] > 16_000_000 and i > start):
+            b, res = judge(ctx, "Judge_Ansi", "Judge_Ansi.cfg", recs[start:i], "%s.%d" % (label, n), workers=WORKERS, timeout=3000)
+            bad += [start + j for j in b]
+            tags.update({start + j: d for j, d in dev_tags(res).items()})
+            start, size, n = i, 0, n + 1
+        if i < len(recs):
+            size += sizes[i]
+    return bad, tags
+
+
+def judge_records(ctx, h, inputs, label, st, recs=None):
     """harness records of `inputs` judged by TLC; rejected records are re-run and re-judged alone before they count"""
     if recs is None:
         recs = run_bulk(ctx, h, inputs, label)
-    bad, res = judge(ctx, "Judge_Ansi", "Judge_Ansi.cfg", recs, label, workers=WORKERS, timeout=3000)
+    bad, tags = judge_chunks(ctx, recs, label)
     if not bad:
         return recs
-    tags = dev_tags(res)
     plain = [i for i in bad if i not in tags]
     todo = plain[:8]
     for i in bad:
@@ -434,7 +449,7 @@ def run(ctx):
         raise Infra("grammar generator left the well-formed domain: %s" % json.dumps(bad_wf[0]["lines"]))
     gres = replay_split(ctx, h, gcases, "grammar", st)
     classify(st, gcases)
-    judged += gres[::2]
+    judged += gres[::ctx.pick(2, 6)]
     e2e_pool += [c for c in gcases if len(c["lines"]) == 1]
     c = next((c for c in gcases if len(c["lines"]) >= 2 and any(a[1]["fg"] for a in c["exp"][-1]["attrs"])), gcases[0])
     ctx.sample({"lines": [show(l) for l in c["lines"]], "predicted": c["exp"]})
